@@ -501,6 +501,35 @@ def wtFields (fs : Fields) : EKvs → Bool
       && wtFields fs r
 end
 
+mutual
+/-- JSON-side typing (audit C16-M2): the JSON value `j` has the shape of the type – arrays under
+array dims, objects under typed maps (any keys), objects whose every key is a declared member under
+struct types, any object under the untyped `map`, scalars or `null` elsewhere; `null` everywhere.
+(The counterpart of `wt` before conversion: `convert_wt` shows the conversion of such a value is
+well-typed, i.e. carries exactly the struct-vs-map flags the compiler demands.) -/
+def jWt (b : Base) (ad md : Nat) : J → Bool
+  | .lit l => l.isNull || (ad == 0 && md == 0 && b.isScalar)
+  | .arr xs => decide (ad > 0) && jWtList b (ad - 1) md xs
+  | .obj kvs =>
+    ad == 0 &&
+    match mapAction b ad md with
+    | .vals b' ad' md' => jWtVals b' ad' md' kvs
+    | .fields fs => jWtFields fs kvs
+    | .markStruct => false
+    | .keep => b.isUmap
+def jWtList (b : Base) (ad md : Nat) : JList → Bool
+  | .nil => true
+  | .cons j r => jWt b ad md j && jWtList b ad md r
+def jWtVals (b : Base) (ad md : Nat) : JKvs → Bool
+  | .nil => true
+  | .cons _ j r => jWt b ad md j && jWtVals b ad md r
+def jWtFields (fs : Fields) : JKvs → Bool
+  | .nil => true
+  | .cons k j r =>
+    (fs.find k).isSome && jWt (fs.findD k).base (fs.findD k).arrayDim (fs.findD k).mapDim j
+      && jWtFields fs r
+end
+
 /-! ## the call level: `BuildCallAst` / `BuildDataForAst` loops -/
 
 abbrev Sig := List (Str × TypeId)
